@@ -137,7 +137,10 @@ def parse_real(k, b):
 
 def _try(fn, *a):
     try:
-        return {"ok": True, "v": fn(*a)}
+        v = fn(*a)
+        if fn is build_real and not isinstance(v, (bytes, bytearray)):
+            return {"ok": False, "v": None, "cls": "builder-returned-" + type(v).__name__}   # a builder must return bytes
+        return {"ok": True, "v": v}
     except Exception as e:  # noqa - the outcome is judged, not the class
         return {"ok": False, "v": None, "cls": type(e).__name__}
 
